@@ -134,8 +134,8 @@ PROPS = {
         'targets': ['Corr/Dispatch.vo', 'Proto/Run.vo'],
     },
     'C13': {
-        'level_text': 'Theorems for every byte string: ExtractInstanceTags, the envelope decoder (on inputs longer than the marker), dataMsg.deserialize never take the panic outcome of the model (slices are guarded); the TLV loop terminates within length(input) rounds; what ExtractMPIs allocates is at most len/4 entries whatever count the input announces. The byte-level models are compared with the Go functions every run on a hostile stream (truncations at every boundary, huge length/count prefixes, garbage). Oracles on the real code every run: each parser entry point (incl. ParsePublicKey/ParsePrivateKey, ImportKeys, sexp.Read) under panic, wall-time and allocation guards; Receive on hostile input in 7 conversation states x policies x versions followed by a probe exchange; failure/short read of the k-th read of Conversation.Rand for every k of a session, with state-unchanged-or-usable oracle.',
-        'level_note': 'partial: the s-expression reader, key-file import and big.Int parsing are exercised by the guarded oracle only (no Coq model); absence of hangs/allocation in the conversation machine follows from the model being structurally recursive but is tied to the code by correspondence, not proof.',
+        'level_text': 'Theorems for every byte string: ExtractInstanceTags, the envelope decoder (on inputs longer than the marker) and dataMsg.deserialize never take the panic outcome of the model (slices are guarded); the TLV loop terminates within length(input) rounds; what ExtractMPIs allocates is at most len/4 entries whatever count the input announces; the s-expression reader behind the key-file import returns on every input within 2*|input|+4 rounds (every list item consumes a byte). The byte-level models incl. the s-expression reader are compared with the Go functions every run on a hostile stream (truncations at every boundary, huge length/count prefixes, garbage, unterminated / deeply nested lists). Oracles on the real code every run: each parser entry point (incl. ParsePublicKey/ParsePrivateKey, ImportKeys) under panic, wall-time and allocation guards; Receive on hostile input in 7 conversation states x policies x versions followed by a probe exchange; authenticated-but-malicious key-exchange payloads (an unparsable or foreign public key where key and signature belong, encrypted and MACed correctly), also compared with the machine; failure of the k-th read of Conversation.Rand for every k of a session with a state-unchanged-or-usable oracle.',
+        'level_note': 'partial: key-file import above the s-expression layer (account / key extraction) and big.Int parsing are exercised by the guarded oracle only; absence of hangs/allocation in the conversation machine follows from the model being structurally recursive but is tied to the code by correspondence, not proof.',
         'trusted': ['panic/time/allocation guards in the harness measure the real calls (runtime.MemStats deltas, 2 s watchdog)', 'the byte-level model turns every Go slice expression into a guarded slice returning Panic when out of range'],
         'assumptions': [],
         'targets': ['Corr/Dispatch.vo', 'Proto/Run.vo'],
